@@ -129,6 +129,30 @@ func VxC03() {
 			vxAssert(got == v, "expr?:d must yield the value when the error is nil")
 			vxCalls(1) // d is evaluated only on the error path
 		}
+	case 11:
+		var got int
+		perr, panicked := vxPanics(func() { got = BangThree(v, w, fail) })
+		if fail {
+			vxAssert(panicked && perr != nil && errors.Is(perr, errBoom), "expr! with three values must panic with the callee's error")
+		} else {
+			want := v - 1
+			if w > 0 {
+				want = v + 1
+			}
+			vxAssert(!panicked && got == want, "expr! must yield all three values in order when the error is nil")
+		}
+		vxCalls(1)
+	case 12:
+		var got int
+		var gerr error
+		perr, panicked := vxPanics(func() { got, gerr = QuestTwo(v, w, fail) })
+		if fail {
+			vxAssert(panicked && perr != nil && errors.Is(perr, errBoom), "expr! before expr? must panic with the callee's error")
+			vxCalls(1)
+		} else {
+			vxAssert(!panicked && gerr == nil && got == v-w, "expr! then expr? must yield the values when the errors are nil")
+			vxCalls(1, 2)
+		}
 	case 10:
 		got := DefaultArg(v, d, fail)
 		if fail {
